@@ -1,9 +1,13 @@
 ----------------------------- MODULE MC_Client -----------------------------
 EXTENDS Client, Json
 
-CONSTANTS MaxOps, ScriptSet, Emit
+CONSTANTS MaxOps, ScriptSet, Emit,
+          WithUpgrade   \* TRUE: upgrade() is one of the ways to send (a plain call whose request announces the upgrade)
 
 Cont == Reply(TRUE, "", "ok")
+
+\* upgrade() is a plain call whose request announces the upgrade
+Modes == {"call", "more", "oneway"} \cup (IF WithUpgrade THEN {"upgrade"} ELSE {})
 
 AllReplies == {Reply(c, e, p) : c \in BOOLEAN, e \in ErrNames \cup {""}, p \in Pars}
 
@@ -28,7 +32,7 @@ Owner(c) == ((c - 1) % Cardinality(Threads)) + 1
 MayUse(c) == \A d \in Objs : (d < c /\ Owner(d) = Owner(c)) => ~obj[d].armed
 
 Step ==
-  \/ \E t \in Threads, c \in Objs, m \in {"call", "more", "oneway"}, s \in Scripts :
+  \/ \E t \in Threads, c \in Objs, m \in Modes, s \in Scripts :
         /\ MayUse(c) /\ Owner(c) = t /\ Len(hist) < MaxOps
         /\ ((m = "oneway" \/ ~obj[c].armed \/ ~ConnFree) => s = CHOOSE x \in Scripts : TRUE)   \* script irrelevant: nothing is answered
         /\ Send(t, c, m, s)
